@@ -70,6 +70,13 @@ type Pkg struct {
 	OuterTar    []TarEntry
 }
 
+// checkZstdWindow flags a zstd frame that the reference decoder refuses with its default limit.
+func checkZstdWindow(p *Pkg, where string, b []byte) {
+	if w, ok := ZstdWindow(b); ok && w > 128<<20 {
+		p.prob("zstd-window", "%s: the zstd frame declares a %d MiB window; libzstd (dpkg, pacman, rpm) refuses more than 128 MiB by default", where, w>>20)
+	}
+}
+
 func (p *Pkg) prob(class, format string, a ...any) {
 	p.Problems = append(p.Problems, class+": "+fmt.Sprintf(format, a...))
 }
@@ -211,8 +218,9 @@ func ParseControl(b []byte) ([]KV, error) {
 	var out []KV
 	lines := strings.Split(strings.TrimSuffix(string(b), "\n"), "\n")
 	for _, l := range lines {
-		if l == "" {
-			return out, fmt.Errorf("control: empty line inside stanza")
+		if strings.Trim(l, " \t\r") == "" {
+			// dpkg and opkg end the paragraph at a line that is empty or holds only white space
+			return out, fmt.Errorf("control: empty or white-space-only line inside the stanza (line %q): the fields after it are lost", l)
 		}
 		if l[0] == ' ' || l[0] == '\t' {
 			if len(out) == 0 {
@@ -488,6 +496,9 @@ func decodeDeb(p *Pkg, b []byte, tools map[string]string) error {
 	if err != nil {
 		return fmt.Errorf("%s: %w", ms[2].Name, err)
 	}
+	if kind == "zstd" {
+		checkZstdWindow(p, ms[2].Name, ms[2].Data)
+	}
 	if kind == "gzip" {
 		if g, _ := SplitGzip(ms[2].Data); len(g) > 0 && g[0].HasTime {
 			p.Stamps = append(p.Stamps, Stamp{ms[2].Name + ":gzip-header", g[0].ModTime.Unix()})
@@ -732,6 +743,7 @@ func decodeArch(p *Pkg, b []byte, tools map[string]string) error {
 	if err != nil {
 		return err
 	}
+	checkZstdWindow(p, "package", b)
 	es, sh, err := ReadTar(raw)
 	if err != nil {
 		return err
@@ -814,6 +826,9 @@ func decodeRPM(p *Pkg, b []byte, tools map[string]string) error {
 	p.RPM = r
 	if err != nil {
 		return err
+	}
+	if SniffCompression(r.Payload) == "zstd" {
+		checkZstdWindow(p, "payload", r.Payload)
 	}
 	h := r.Hdr
 	add := func(k string, tag int) {
